@@ -521,6 +521,21 @@ class _LayoutInterp(FinamInterp):
             ax = kwargs.get("axes", args[1] if len(args) > 1 else None)
             if isinstance(ax, (list, tuple)) and all(isinstance(i, int) for i in ax):
                 return Layout(args[0].axes[i] for i in ax)
+        if short == "swapaxes" and isinstance(args[0], Layout) and len(args) == 3 and all(isinstance(i, int) for i in args[1:]):
+            a = list(args[0].axes)
+            try:
+                a[args[1]], a[args[2]] = a[args[2]], a[args[1]]
+            except IndexError:
+                self.on_raise(Sym("exc", "AxisError", "axis out of bounds"), node)
+            return Layout(a)
+        if short == "moveaxis" and isinstance(args[0], Layout) and len(args) == 3 and all(isinstance(i, int) for i in args[1:]):
+            a = list(args[0].axes)
+            try:
+                x = a.pop(args[1])
+                a.insert(args[2] if args[2] >= 0 else len(a) + 1 + args[2], x)
+            except IndexError:
+                self.on_raise(Sym("exc", "AxisError", "axis out of bounds"), node)
+            return Layout(a)
         if short == "flip" and isinstance(args[0], Layout):
             ax = kwargs.get("axis", args[1] if len(args) > 1 else None)
             if isinstance(ax, int):
